@@ -238,6 +238,10 @@ func (m *Machine) sliceBytes(v Value) []*smt.Term {
 	}
 	r := make([]*smt.Term, len(s.A))
 	for i, e := range s.A {
+		if bo, isView := e.(ByteOf); isView {
+			r[i] = m.byteOf(bo)
+			continue
+		}
 		t, ok := e.(*smt.Term)
 		if !ok {
 			m.unsupported(fmt.Sprintf("sliceBytes element %T", e))
@@ -245,6 +249,20 @@ func (m *Machine) sliceBytes(v Value) []*smt.Term {
 		r[i] = t
 	}
 	return r
+}
+
+// ByteOf is byte I (little endian) of the 64-bit word currently stored in cell C.
+type ByteOf struct {
+	C *Value
+	I int
+}
+
+func (m *Machine) byteOf(b ByteOf) *smt.Term {
+	t, ok := (*b.C).(*smt.Term)
+	if !ok || t.W != 64 {
+		m.unsupported("byte view of a non-word cell")
+	}
+	return m.ctx.Extract(t, 8*b.I+7, 8*b.I)
 }
 
 func (m *Machine) bytesToSlice(b []*smt.Term) SliceV {
